@@ -23,7 +23,9 @@ pub fn verif_dir() -> std::path::PathBuf {
 }
 
 pub fn flavour() -> &'static str {
-    if cfg!(feature = "pure") {
+    if !cfg!(feature = "full") {
+        "lean"
+    } else if cfg!(feature = "pure") {
         "pure"
     } else if cfg!(feature = "prefer_intrinsics") {
         "prefer_intrinsics"
